@@ -775,6 +775,55 @@ Definition act_default_more (args : list pyval) : res pyval :=
   | _ => Unsupported "default form"
   end.
 
+
+(* ---------- CREATE DOMAIN / CREATE TYPE (dialects/sql.py: class Domain, class Type) ------------------------------------------------------ *)
+Definition is_dot_v (v : pyval) : bool := match v with PStr s => String.eqb s "." | _ => false end.
+(* p_domain_name: p[0] = {}; schema = None unless "." in p_list, then p[3]; domain_name = p_list[-2] *)
+Definition act_domain_name (args : list pyval) : res pyval :=
+  do sch <- (if existsb is_dot_v args then match nth_error args 2 with Some v => Ok v | None => Raise IndexError end else Ok PNone);
+  do nm_ <- match nth_error (rev args) 1 with Some v => Ok v | None => Raise IndexError end;
+  Ok (PDict [("schema", sch); ("domain_name", nm_)]).
+(* p_expression_domain_as : expr -> domain_name id LP pid RP *)
+Definition act_domain_as (args : list pyval) : res pyval :=
+  match args with
+  | [PDict d; PStr base; _; vals; _] =>
+      let d1 := dict_set (dict_set d "base_type" (PStr base)) "properties" (PDict []) in
+      Ok (PDict (if String.eqb (upper base) "ENUM" then dict_set d1 "properties" (PDict [("values", vals)]) else d1))
+  | _ => Unsupported "domain form"
+  end.
+(* p_type_name *)
+Definition act_type_name (args : list pyval) : res pyval :=
+  if existsb is_dot_v args then
+    do sch <- match nth_error args 1 with Some v => Ok v | None => Raise IndexError end;
+    do nm_ <- match nth_error args 3 with Some v => Ok v | None => Raise IndexError end;
+    Ok (PDict [("schema", sch); ("type_name", nm_)])
+  else
+    do nm_ <- match nth_error args 1 with Some v => Ok v | None => Raise IndexError end;
+    Ok (PDict [("schema", PNone); ("type_name", nm_)]).
+(* p_type_definition for `type_name id LP pid RP`: remove_par, properties {}, base_type = p_list[2], then process_str_base_type
+   (ENUM: values; OBJECT: attributes when the first value contains "type").  A base type spelled TABLE takes the columns branch
+   of add_columns_property_for_type: not modelled *)
+Definition act_type_definition_pid (args : list pyval) : res pyval :=
+  match filter (fun v => match v with PStr s => negb (String.eqb s "(" || String.eqb s ")") | _ => true end) args with
+  | [PDict d; PStr base; PList vals] =>
+      if String.eqb base "TABLE" || truthy_a (match dict_get d "properties" with Some v => v | None => PNone end)
+      then Unsupported "type_definition: TABLE / existing properties"
+      else
+        let props :=
+            if String.eqb (upper base) "ENUM" then [("values", PList vals)]
+            else if String.eqb (upper base) "OBJECT" then
+                   match vals with
+                   | PStr v0 :: _ => if contains v0 "type" then [("attributes", PList vals)] else []
+                   | _ => []
+                   end
+                 else [] in
+        match vals with
+        | PStr _ :: _ => Ok (PDict (dict_set (dict_set d "properties" (PDict props)) "base_type" (PStr base)))
+        | _ => Unsupported "type_definition: values"
+        end
+  | _ => Unsupported "type_definition form"
+  end.
+
 Definition action_more (norm : bool) (prod : string) (args : list pyval) : res pyval :=
   match words prod with
   | lhs :: _ :: _ =>
@@ -884,6 +933,13 @@ Definition action_more (norm : bool) (prod : string) (args : list pyval) : res p
             || String.eqb prod "expr -> expr COMMA constraint uniq" || String.eqb prod "expr -> expr COMMA constraint pkey"
             || String.eqb prod "expr -> expr COMMA foreign ref" || String.eqb prod "expr -> expr COMMA constraint foreign ref"
             || String.eqb prod "expr -> expr COMMA" then act_expr_table_item args
+    else if String.eqb lhs "domain_name" then act_domain_name args
+    else if String.eqb prod "expr -> domain_name id LP pid RP" then act_domain_as args
+    else if String.eqb lhs "type_create" then Ok PNone
+    else if String.eqb lhs "type_name" then act_type_name args
+    else if String.eqb prod "type_definition -> type_name id LP pid RP" then act_type_definition_pid args
+    else if String.eqb prod "expr -> type_definition" then
+      match args with [PDict d] => Ok (PDict d) | _ => Unsupported "unit production on a non-dict" end
     else Unsupported ("action " ++ prod)
   | _ => Unsupported ("action " ++ prod)
   end.
